@@ -147,7 +147,7 @@ Definition sel_text (kin : kctx) (walias subquery : bool) (ali : option string)
     (orderbys : list (item * option order)) (l o : option Z) (fu : bool) : res string :=
   let k := defaults c kin in
   let (fnames, n1) := name_from sub_count 0 from in
-  let (jnames, _) := name_joins (base_tables from) (src_names from fnames ++ map fst withs) n1 joins in
+  let (jnames, _) := name_joins (base_tables from) (src_names from fnames) n1 joins in
   let srcs := (src_refs from fnames ++ src_refs (map (fun j => snd (fst j)) joins) jnames)%list in
   let wns := wns_of from joins srcs wheres in
   let base := kc k in
@@ -180,7 +180,7 @@ Definition sel_segs (kin : kctx) (c : cls) (withs : list (string * query)) (dist
     (orderbys : list (item * option order)) (l o : option Z) (fu : bool) : res segs :=
   let k := defaults c kin in
   let (fnames, n1) := name_from sub_count 0 from in
-  let (jnames, _) := name_joins (base_tables from) (src_names from fnames ++ map fst withs) n1 joins in
+  let (jnames, _) := name_joins (base_tables from) (src_names from fnames) n1 joins in
   let srcs := (src_refs from fnames ++ src_refs (map (fun j => snd (fst j)) joins) jnames)%list in
   let wns := wns_of from joins srcs wheres in
   let base := kc k in
@@ -412,7 +412,7 @@ Definition flat_of (x : query) : option flat :=
   match x with
   | QSel CSQLLite [] d sels from joins wh hv gb ob l o false None =>
       let (fnames, n1) := name_from sub_count 0 from in
-      let (jnames, _) := name_joins (base_tables from) (src_names from fnames ++ map fst (@nil (string * query))) n1 joins in
+      let (jnames, _) := name_joins (base_tables from) (src_names from fnames) n1 joins in
       let jsrc := map (fun j => snd (fst j)) joins in
       let srcs := (src_refs from fnames ++ src_refs jsrc jnames)%list in
       let wns := wns_of from joins srcs wh in
